@@ -258,8 +258,22 @@ def post_completion(ctx, tg, task, pre, result):
         for t in released:
             if t.name not in kids:
                 ctx.violate("C07", "released_non_child", f"conditional {s.uname} released {t.name}", {})
+        # a chosen child that still waits for an ordinary (side-input) parent is released later, by that
+        # parent's completion: it is the one child that is neither released nor cancelled now
+        gone = set(rel_names) | {t.name for t in cancelled}
+        deferred = []
+        for k in kids:
+            ks = ctx.by_key.get((s.graph, k))
+            if k in gone or ks is None or ks.state in ("CANCELLED", "COMPLETED"):
+                continue
+            others = [p for p in ctx.parents[s.base][k] if p != s.node]
+            if others and not ctx.nodes[s.base][k].get("terminal") and any(
+                    ctx.by_key.get((s.graph, p)) is None or ctx.by_key[(s.graph, p)].state != "COMPLETED"
+                    for p in others):
+                deferred.append(k)
         ctx.cond_choices[(s.graph, s.node)] = {"released": rel_names,
-                                               "cancelled": [t.name for t in cancelled]}
+                                               "cancelled": [t.name for t in cancelled],
+                                               "deferred": deferred}
         ctx.probe("conditional_resolved")
         for t in released:
             ks = ctx.shadow(t)
@@ -624,6 +638,10 @@ def post_c07(ctx, parsed, res):
         for k in kids:
             ks = ctx.by_key.get((graph, k))
             probs[k] = ctx.nodes[base][k].get("probability", 1.0)
+        if len(released) == 0 and len(ch.get("deferred", [])) == 1:
+            # the chosen child waits for a side input; it counts as the branch taken
+            released = list(ch["deferred"])
+            ctx.probe("c07_choice_deferred_by_side_input")
         if len(released) != 1:
             def _seq_of(sh, state):
                 for (sq, _t, st, _via) in sh.hist:
